@@ -76,10 +76,11 @@ type State struct {
 	OOEWhy    string
 	Started   bool
 	LastLoad  string // last value stored by LOAD (exit value at a graceful end)
+	Stats     map[string]int // reach probes: how often the model went through notable branches
 }
 
 func New(a *app.App, cfg Cfg) *State {
-	s := &State{App: a, Cfg: cfg, Flags: map[uint32]bool{}, Levels: []map[string]*Sym{{}}, Calls: map[string]int{}}
+	s := &State{App: a, Cfg: cfg, Flags: map[uint32]bool{}, Levels: []map[string]*Sym{{}}, Calls: map[string]int{}, Stats: map[string]int{}}
 	if c, ok, _ := KnownLang(cfg.Language); ok {
 		s.Lang = c
 	}
@@ -182,6 +183,7 @@ func (s *State) move(target string) (node string, ok bool, lateral bool) {
 	switch target {
 	case "_":
 		if len(s.Path) <= 1 {
+			s.Stats["up_at_entry_node"]++
 			return "", false, false
 		}
 		s.Path = s.Path[:len(s.Path)-1]
@@ -335,6 +337,11 @@ func (s *State) Request(input []byte) *Expect {
 			return e
 		case app.LOAD:
 			if s.visible(in.A) != nil {
+				if _, here := s.Levels[len(s.Levels)-1][in.A]; here {
+					s.Stats["load_skipped_visible_same_level"]++
+				} else {
+					s.Stats["load_skipped_visible_from_upper_level"]++
+				}
 				continue
 			}
 			c, failed := s.callExt(e, in.A, input)
@@ -372,8 +379,12 @@ func (s *State) Request(input []byte) *Expect {
 				s.ooe("RELOAD of a symbol that is not visible")
 				return e
 			}
+			if c == "" {
+				s.Stats["reload_to_empty"]++
+			}
 			if v.Size > 0 && uint32(len(c)) > v.Size {
 				// over the limit: never stored; the old value stays
+				s.Stats["reload_over_limit_not_stored"]++
 			} else if s.Cfg.CacheSize > 0 && s.use()-uint32(len(v.Val))+uint32(len(c)) > s.Cfg.CacheSize {
 				s.ooe("cache capacity exceeded on RELOAD")
 				e.Skip = true
@@ -402,19 +413,30 @@ func (s *State) Request(input []byte) *Expect {
 			s.Code = append(s.Code, s.nodeCode(node)...)
 		case app.INCMP:
 			if s.matched {
+				if in.B == "*" || in.B == string(input) {
+					s.Stats["incmp_candidate_ignored_after_match"]++
+				}
 				continue
 			}
 			s.reading = true
 			if in.B != "*" && in.B != string(input) {
 				continue
 			}
+			if in.B == "*" {
+				s.Stats["wildcard_match"]++
+			}
+			depthBefore := len(s.Path)
 			node, ok, lat := s.move(in.A)
+			if ok && in.A == "^" && depthBefore >= 3 {
+				s.Stats["rewind_from_depth_ge3"]++
+			}
 			if !ok {
 				if in.A == "<" {
 					// a 'previous' request on the first page counts as no match for the whole
 					// request: no later INCMP is considered, the input ends on the catch node
 					s.matched = true
 					s.reading = true
+					s.Stats["previous_on_first_page"]++
 					continue
 				}
 				e.ExecErr, e.ErrWhy, e.Cont = true, "failing-move:"+in.A, false
@@ -433,7 +455,12 @@ func (s *State) Request(input []byte) *Expect {
 				continue
 			}
 			if s.Flags[in.N] != in.M {
+				s.Stats["catch_not_taken"]++
 				continue
+			}
+			s.Stats["catch_taken"]++
+			if len(s.Mapped) > 0 {
+				s.Stats["catch_taken_with_mappings_pending"]++
 			}
 			node, ok, lat := s.move(in.A)
 			if !ok {
@@ -463,9 +490,11 @@ func (s *State) Request(input []byte) *Expect {
 			s.Mapped = nil
 			if s.reading {
 				s.reading = false
+				s.Stats["croak_while_reading"]++
 				s.toCatch(e, "croak", input)
 				continue
 			}
+			s.Stats["croak_terminates"]++
 			s.Flags[FlagTerminate] = true
 		case app.MOUT, app.MNEXT, app.MPREV, app.MSINK:
 			// rendering only
